@@ -78,6 +78,7 @@ def main():
         "the pairing groups are vector spaces over the scalar field with a bilinear map that is non-degenerate at the generator (Section hypotheses of Tbls/Shamir.v, satisfiable: C08_bls_model_exists); hash-to-curve never outputs the point at infinity",
         "primality of the BLS12-381 scalar order r is PROVED in Coq (C08_r_prime, Tbls/PrimeR.v: Pocklington's test with the factored part 2^32*3*906349^2*254760293^2 > sqrt r of r-1, base 7, evaluated by vm_compute); the general theorems about the executable instance take an arbitrary prime modulus as hypothesis, the _r versions are unconditional",
         "share ids are 1..n with n below the field characteristic (C08_ids_1_to_n_ok)",
+        "the theorems are about a pure verification function; that tbls.Verify / VerifyAggregate behave as one (same call => same verdict whatever was called before, in one process) is not a theorem but is exercised by the stateful call sequences of the harness (history independence)",
         "herumi (C library behind tbls.Herumi) is exercised, not verified: scalars are 32-byte big-endian, Deserialize rejects values >= r and accepts 0, Recover interpolates through all shares handed to it",
     ]
     R.proofs(extra_targets=["Tbls/ShamirCorr.v"])
@@ -90,9 +91,9 @@ def main():
         except (OSError, ValueError) as e:
             R.broke("replay file unreadable", str(e))
             R.finish()
-    run_tbls = replay is None or "s" in replay or "secret" in replay
+    run_tbls = replay is None or "s" in replay or "secret" in replay or "calls" in replay
     run_vsr = replay is None or "dv" in replay
-    if replay is not None and not (("s" in replay) or ("dv" in replay)):
+    if replay is not None and not (("s" in replay) or ("calls" in replay) or ("dv" in replay)):
         # replay of a theorem/correspondence break: run the whole check
         os.environ.pop("VERIF_REPLAY", None)
         run_tbls = run_vsr = True
@@ -128,13 +129,14 @@ def main():
         evaluate(R, "rec", "rec_bad", "list (Z * Z) * Z", "recover_ok",
                  [(c["id"], "(%s, %s)" % ("[" + "; ".join("(%d, %s)" % (i, v) for i, v in zip(c["ids"], c["vals"])) + "]", c["result"])) for c in rec],
                  "RecoverSecret differs from recoverZ", {c["id"]: c for c in rec})
-        evaluations += len(lag) + len(sp) + len(se) + len(rec) + o.get("group_evals", 0)
+        evaluations += len(lag) + len(sp) + len(se) + len(rec) + o.get("group_evals", 0) + o.get("history_calls", 0)
         dist.update(o.get("dist") or {})
         dist["group_kinds"] = o.get("group_kinds")
         dist["degenerate_substitutions_expected_to_verify"] = o.get("degenerate_expected_verifies")
+        dist["history_independence"] = {"sequences": o.get("history_blocks"), "calls": o.get("history_calls"), "by": o.get("history_stats")}
         dist["model_comparisons"] = {"lagrange_sets": len(lag), "lagrange_coefficients": sum(len(c["ids"]) for c in lag),
                                      "split_insecure": len(sp), "split_csprng": len(se), "recover": len(rec)}
-        R.coverage["distinct_nontrivial"] += o.get("distinct_scenarios", 0) + len(lag) + len(sp) + len(se) + len(rec)
+        R.coverage["distinct_nontrivial"] += o.get("distinct_scenarios", 0) + len(lag) + len(sp) + len(se) + len(rec) + o.get("history_blocks", 0)
         R.add_samples(o.get("samples") or [], 2)
         if lag:
             R.add_samples([lag[len(lag) // 2]], 1)
@@ -167,6 +169,9 @@ def main():
     R.coverage["rule"] = ("group-side: one evaluation = one (polynomial shape, n, t, subset S, substituted position, kind) run on the real curve "
                           "(positive: RecoverSecret/RecoverPubkey/ThresholdAggregate/Verify over S, |S| >= t; negative: one share / index / message substituted, verdict must equal the one given by the iff theorems, "
                           "including the degenerate shapes 'flat' (all shares equal) and 'zero_share'); distinct by that tuple. "
+                          "messages have lengths 0, 1, 31, 32, 33, 64, 96 bytes (cycled), the 'other' message of a substitution is a related one (same 32-byte prefix and another tail, truncated, zero-extended, trailing zeros stripped, same tail and another prefix). "
+                          "history independence: stateful call sequences against the one process-wide tbls implementation (each Verify / VerifyAggregate call is one evaluation, a sequence counts once as distinct): after every successful verification "
+                          "(plain, threshold-aggregated group signature, FastAggregateVerify) the same signature is re-offered for related messages and related public keys / key sets, wrong calls are repeated, valid calls re-checked; every verdict must be the pure function's. "
                           "model comparisons: one per id set (Lagrange coefficients, all subsets of 1..7 quick / 1..10 thorough), per scripted split, per CSPRNG split, per sampled RecoverSecret (also below threshold), "
                           "per verifySharesReconstruct call; every one is a distinct input")
     R.coverage["input_distribution"] = dist
